@@ -367,15 +367,20 @@ func checkC15(c *Ctx) {
 			}
 		}
 		// … and the importer neither sees nor disturbs what the module keeps for itself
-		type hp struct{ name, main, want string }
+		type hp struct{ name, main, want, mod string }
 		mod := mms[0].mod
+		// (a module body that raises and handles its own exception has still run: what it had
+		// declared up to there stays for its methods, as after a normal end)
+		handled := "令计数 = 10\n如何取？\n\t输出 计数\n如何加？\n\t计数 = 计数 + 1\n\t输出 计数\n令半 = 计数 / 2\n抛出异常：“载入时”！\n令后 = 1\n\n拦截异常：\n\t（显示：“模已处理”）\n"
 		hps := []hp{
-			{"module-variable-not-exported", "导入“模”\n输出 税率\n", "error:42"},
-			{"importer-variable-of-the-same-name", "导入“模”\n令税率 = 1\n输出【（含税：100），税率】\n", "list[num(105),num(1)]"},
+			{"module-variable-not-exported", "导入“模”\n输出 税率\n", "error:42", mod},
+			{"importer-variable-of-the-same-name", "导入“模”\n令税率 = 1\n输出【（含税：100），税率】\n", "list[num(105),num(1)]", mod},
+			{"module-body-handled-its-exception", "导入“模”\n输出【（取），（加），（取）】\n", "list[num(10),num(11),num(11)]", handled},
+			{"module-body-handled-its-exception/caller-has-handler", "导入“模”\n如何试？\n\t输出（取）\n\n\t拦截异常：\n\t\t输出 -1\n输出（试）\n", "num(10)", handled},
 		}
 		hreqs := []Req{}
 		for _, h := range hps {
-			hreqs = append(hreqs, Req{Op: "exec", Main: "main.zn", Libs: true, EvalBudget: 20000, ParseBudget: 20000, Files: []File{{Path: "main.zn", Data: widen([]byte(h.main))}, {Path: "模.zn", Data: widen([]byte(mod))}}})
+			hreqs = append(hreqs, Req{Op: "exec", Main: "main.zn", Libs: true, EvalBudget: 20000, ParseBudget: 20000, Files: []File{{Path: "main.zn", Data: widen([]byte(h.main))}, {Path: "模.zn", Data: widen([]byte(h.mod))}}})
 		}
 		c.runBatches(hreqs, 4, func(i int, req *Req, resp *Resp) {
 			c.Eval()
@@ -388,7 +393,7 @@ func checkC15(c *Ctx) {
 			}
 			c.Nontrivial("module-private|" + h.name + "|" + got)
 			if got != h.want {
-				c.Violation("modules:private:"+h.name, fmt.Sprintf("%s: outcome %s, expected %s\n--- main.zn\n%s--- 模.zn\n%s", h.name, got, h.want, h.main, mod), map[string]interface{}{"req": req})
+				c.Violation("modules:private:"+h.name, fmt.Sprintf("%s: outcome %s, expected %s\n--- main.zn\n%s--- 模.zn\n%s", h.name, got, h.want, h.main, h.mod), map[string]interface{}{"req": req})
 			}
 		})
 	}
